@@ -2234,6 +2234,169 @@ def _feasible(cfg, assume):
     return filt
 
 
+_FUNCTOOLS_CACHES = ('functools.lru_cache', 'functools.cache', 'lru_cache', 'cache')
+
+
+def _decode_tail(p, dec: Func, cfg, is_split):
+    """decode() has no split at '%' of its own: the body from the re-encoding on was moved into a plain module-level
+    helper H(<text>) that decode() calls.  -> (H, graph of H, the split nodes of H, [(node of decode(), call)]) or None.
+    H takes the text as its one argument; a functools cache on H is keyed by exactly that argument."""
+    found: Dict[str, tuple] = {}
+    for n in cfg.live_nodes():
+        if n.copy:
+            continue
+        for c in n.calls():
+            if not (isinstance(c.func, ast.Name) and len(c.args) == 1 and not c.keywords):
+                continue
+            h = p.resolve_callable(dec, c.func)
+            if not isinstance(h, Func) or h is dec or h.cls is not None or h.parent is not None or h.is_async:
+                continue
+            if any(d.split('(')[0] not in _FUNCTOOLS_CACHES for d in h.decorators):
+                continue
+            a = h.node.args
+            if len(a.args) + len(a.posonlyargs) != 1 or a.vararg or a.kwarg or a.kwonlyargs:
+                continue
+            hcfg = cfg_of(h, p)
+            sps = [m for m in hcfg.live_nodes() if any(is_split(x, h) for x in m.calls())]
+            if sps:
+                found.setdefault(h.qual, (h, hcfg, sps, []))[3].append((n, c))
+    if len(found) != 1:
+        return None
+    return next(iter(found.values()))
+
+
+def _fixed_by_guard(f: Func, cfg, nid: int, q: str, want: bool) -> bool:
+    """node `nid` runs only where a dominating branch outcome establishes truthiness(q) == want; a local bound once
+    (`cacheable = len(s) <= N and q`) is read through at the and/or/not positions of the test."""
+    from .c11 import _truthiness
+
+    def subst(e, depth=3):
+        if isinstance(e, ast.Name) and e.id != q and e.id not in f.params() and depth > 0:
+            b = _assignments(f.node, e.id)
+            if len(b) == 1 and b[0][1] is not None:
+                return subst(b[0][1], depth - 1)
+        if isinstance(e, ast.BoolOp):
+            return ast.BoolOp(op=e.op, values=[subst(v, depth) for v in e.values])
+        if isinstance(e, ast.UnaryOp) and isinstance(e.op, ast.Not):
+            return ast.UnaryOp(op=e.op, operand=subst(e.operand, depth))
+        return e
+
+    for t in cfg.live_nodes():
+        if t.kind != 'test':
+            continue
+        for (y, l) in cfg.succ[t.id]:
+            if l in ('T', 'F') and flow.dominated_by_edge(cfg, nid, (t.id, y, l)):
+                if _truthiness(subst(t.ast), l == 'T', lambda e: isinstance(e, ast.Name) and e.id == q) is want:
+                    return True
+    return False
+
+
+R4_MEMO = ('every answer the decode path keeps in a module-level table is stored under a key that depends on every parameter the '
+           'stored value depends on (def-use, including the tests an assignment sits under)')
+R4_MEMO_RW = ("decode('a+b%3Dc') == 'a b=c', then decode('a+b%3Dc', unquote_plus=False) == 'a b=c' (the first call's answer; "
+              "must be 'a+b=c')")
+
+
+def _r4_memo(run, f: Func, cfg, result_vars, hand_calls) -> Set[str]:
+    """R4 clause (memo keys): a module-level table M that `f` stores into (`M[K] = V`) is a memo of answers.  Two calls
+    that agree on K get the same answer back, so K must depend on every parameter of f that V depends on.  Decided by
+    def-use over the parameters: q influences an expression when the expression mentions q or a local derived from q
+    (through the value assigned or through the test / iterable the assignment sits under: _derived_locals).  A
+    bool-defaulted parameter whose truth value is fixed by a dominating branch outcome at the store and at every read
+    of M (the memo serves one setting only) is not required in the key.  The reads of M use the key of the stores.
+    In decode() (`result_vars` / `hand_calls` given) what is stored is the helper's answer.
+    W: decode('a+b%3Dc') then decode('a+b%3Dc', unquote_plus=False) == 'a b=c'.
+    Returns the locals bound only to reads of such a table."""
+    p = run.project
+    m = p.module(URI)
+    locals_ = _stored_names(f.node)
+
+    def table(e) -> Optional[str]:
+        if isinstance(e, ast.Name) and e.id not in locals_ and e.id in m.consts and p.resolve_expr(f.module, e, f) == '%s.%s' % (URI, e.id):
+            return e.id
+        return None
+
+    stores, reads = [], []
+    for x in walk_self(f.node):
+        if isinstance(x, ast.Subscript) and isinstance(x.ctx, ast.Store) and table(x.value):
+            stores.append(x)
+        elif isinstance(x, ast.Call) and isinstance(x.func, ast.Attribute) and x.func.attr in ('setdefault', 'update', '__setitem__') \
+                and table(x.func.value):
+            raise UnknownIdiom('%s: %s fills a module-level table' % (f.qual, short(x, 60)))
+    tables = {table(s.value) for s in stores}
+    if not stores:
+        run.ok('the decode path keeps no answers in a module-level table (nothing to key)', f.loc(), '%s: no memo store' % f.qual)
+        return set()
+    parent = enclosing_map(f.node)
+    for x in walk_self(f.node):
+        if isinstance(x, ast.Subscript) and isinstance(x.ctx, ast.Load) and table(x.value) in tables:
+            reads.append((x, x.slice))
+        elif isinstance(x, ast.Call) and isinstance(x.func, ast.Attribute) and x.func.attr in ('get', 'pop') and table(x.func.value) in tables:
+            if not x.args or x.keywords:
+                raise UnknownIdiom('%s: %s' % (f.qual, short(x, 60)))
+            reads.append((x, x.args[0]))
+        elif isinstance(x, ast.Compare) and len(x.ops) == 1 and isinstance(x.ops[0], (ast.In, ast.NotIn)) and table(x.comparators[0]) in tables:
+            reads.append((x, x.left))
+    params = f.params()
+    derived = {q: {q} | _derived_locals(f.node, {q}) for q in params}
+
+    def deps(e) -> Set[str]:
+        names = {x.id for x in ast.walk(e) if isinstance(x, ast.Name)}
+        return {q for q in params if names & derived[q]}
+
+    def node_of(x):
+        st = x
+        while not isinstance(st, ast.stmt):
+            st = parent[id(st)]
+        ids = [i for i in cfg.nodes_for(st) if not cfg.node(i).copy]
+        if not ids:
+            ids = [n.id for n in cfg.live_nodes() if not n.copy and any(y is x for y in n.walk())]
+        if not ids:
+            raise UnknownIdiom('%s: %s is not on the graph' % (f.qual, short(x, 60)))
+        return st, ids
+
+    store_keys = set()
+    for s in stores:
+        st, ids = node_of(s)
+        if not (isinstance(st, ast.Assign) and len(st.targets) == 1 and st.targets[0] is s):
+            raise UnknownIdiom('%s: memo store %s' % (f.qual, short(st, 60)))
+        key, val = _expand(f, s.slice), st.value
+        store_keys.add((table(s.value), ast.dump(key)))
+        if hand_calls or result_vars:
+            if not ((isinstance(val, ast.Name) and val.id in result_vars and all(flow.dominated_by_nodes(cfg, i, result_vars[val.id]) for i in ids))
+                    or any(val is c for c in hand_calls)):
+                raise UnknownIdiom('%s: what %s keeps is not the answer of the decoding helper' % (f.qual, short(st, 60)))
+        missing = sorted(deps(val) - deps(key))
+        excused = []
+        for q in list(missing):
+            d = _param_default(f, q)
+            if not (isinstance(d, ast.Constant) and isinstance(d.value, bool)):
+                continue
+            sites = [i for i in ids] + [i for (r, _k) in reads if table(getattr(r, 'value', None) if isinstance(r, ast.Subscript) else (
+                r.func.value if isinstance(r, ast.Call) else r.comparators[0])) == table(s.value) for i in node_of(r)[1]]
+            for want in (True, False):
+                if all(_fixed_by_guard(f, cfg, i, q, want) for i in sites):
+                    excused.append(q)
+                    break
+        missing = [q for q in missing if q not in excused]
+        run.check(not missing, R4_MEMO, f, st, where=f.loc(st),
+                  witness=['the key %s depends on: %s' % (short(key, 40), ', '.join(sorted(deps(key))) or '-'),
+                           'the stored value %s depends on: %s' % (short(val, 40), ', '.join(sorted(deps(val))) or '-'),
+                           'not in the key: %s' % ', '.join(missing)] if missing else None,
+                  runtime_witness=R4_MEMO_RW)
+    for r, k in reads:
+        t = table(r.value if isinstance(r, ast.Subscript) else (r.func.value if isinstance(r, ast.Call) else r.comparators[0]))
+        if (t, ast.dump(_expand(f, k))) not in store_keys:
+            raise UnknownIdiom('%s: %s reads the table with another key than it is stored under' % (f.qual, short(r, 60)))
+    out = set()
+    read_ids = {id(r) for r, _k in reads}
+    for name in sorted(locals_ - set(params)):
+        b = _assignments(f.node, name)
+        if b and all(v is not None and id(v) in read_ids for _s, v in b):
+            out.add(name)
+    return out
+
+
 def r4_decoder_paths(run):
     p = run.project
     hexmap = _hex_to_byte(run)
@@ -2269,19 +2432,29 @@ def r4_decoder_paths(run):
         return (isinstance(c, ast.Call) and isinstance(c.func, ast.Attribute) and c.func.attr == 'replace' and len(c.args) == 2
                 and all(isinstance(a, ast.Constant) for a in c.args) and c.args[0].value == '+' and c.args[1].value == ' ')
 
-    def split_sep(c):
+    def split_sep(c, fn=dec):
         # the separator literal, written in place or as a module-level constant (`_PERCENT = b'%'`)
-        v = p.fold(dec.module, c.args[0], None, dec)
+        v = p.fold(fn.module, c.args[0], None, fn)
         return None if v is UNKNOWN else v
 
-    def is_split(c):
+    def is_split(c, fn=dec):
         # the tokenising split, with or without a bound (the bound is decided below: _r4_unbounded_tokens)
         return (isinstance(c, ast.Call) and isinstance(c.func, ast.Attribute) and c.func.attr in ('split', 'rsplit') and len(c.args) >= 1
-                and split_sep(c) in (b'%', '%'))
+                and split_sep(c, fn) in (b'%', '%'))
 
     rep_nodes = [n for n in cfg.live_nodes() if any(is_replace(c) for c in n.calls())]
     split_nodes = [n for n in cfg.live_nodes() if any(is_split(c) for c in n.calls())]
+    # where the split lives: in decode() itself, or -- the body from the re-encoding on moved out verbatim -- in a plain
+    # module-level helper H(text) that decode() hands the text to (`hand`: the nodes of decode() that call it)
+    tail, tcfg, hand = dec, cfg, []
+    if not split_nodes:
+        moved = _decode_tail(p, dec, cfg, is_split)
+        if moved is not None:
+            tail, tcfg, split_nodes, hand = moved
+            run.use_cfg(tcfg)
     sp = single(split_nodes, "split on '%'", dec.qual)
+    hand_ids = [n.id for n, _c in hand]
+    goal_ids = hand_ids or [sp.id]
     # the variable that carries the (plus-replaced) text
     text_vars = set()
     for n in rep_nodes:
@@ -2302,10 +2475,59 @@ def r4_decoder_paths(run):
         return (isinstance(e, ast.Compare) and len(e.ops) == 1 and isinstance(e.ops[0], (ast.In, ast.NotIn))
                 and isinstance(e.left, ast.Constant) and e.left.value == '%')
 
+    # the text that is split / returned is the replaced one
+    if len(text_vars) > 1:
+        raise UnknownIdiom('decode(): several text variables %s' % sorted(text_vars))
+    tv = next(iter(text_vars)) if text_vars else None
+    if tv is None:
+        raise AnchorError("decode(): no replace('+', ' ') found")
+    binds = [b for b in _assignments(dec.node, tv) if not is_replace(b[1])]
+    for s, v in binds:
+        if any(v is c for _n, c in hand):
+            continue       # the name is re-used for the decoded result: `text = H(text)` (which one a return means is decided below)
+        if not (isinstance(v, ast.Name) and v.id == src):
+            raise UnknownIdiom('decode(): %s is also bound by %s' % (tv, short(s, 60)))
+    # what decode() does with the helper's answer: bound to a local (result_vars: name -> binding nodes) or returned
+    result_vars: Dict[str, List[int]] = {}
+    handed_rets = []
+    for n, c in hand:
+        if not (isinstance(c.args[0], ast.Name) and c.args[0].id == tv):
+            raise UnknownIdiom('decode(): %s is not handed the text %s' % (short(c, 60), tv))
+        a = n.ast if n.kind == 'stmt' else None
+        if isinstance(a, ast.Return) and a.value is c:
+            handed_rets.append(n)
+        elif isinstance(a, (ast.Assign, ast.AnnAssign)) and a.value is c and all(
+                isinstance(t, ast.Name) for t in (a.targets if isinstance(a, ast.Assign) else [a.target])) and (
+                not isinstance(a, ast.Assign) or len(a.targets) == 1):
+            result_vars.setdefault((a.targets[0] if isinstance(a, ast.Assign) else a.target).id, []).append(n.id)
+        else:
+            raise UnknownIdiom('decode(): the result of %s is neither bound to a local nor returned: %s' % (short(c, 40), n.text()))
+        if flow.find_path(cfg, [b for (b, l) in cfg.succ[n.id] if l != 'exc'], hand_ids, edge_filter=flow.no_exc) is not None:
+            raise UnknownIdiom('decode(): %s may run twice' % short(c, 40))
+    memo = _r4_memo(run, dec, cfg, result_vars, [c for _n, c in hand])
     shortcut = []
     for n in cfg.live_nodes():
         if n.kind == 'stmt' and isinstance(n.ast, ast.Return) and isinstance(n.ast.value, ast.Name):
+            x = n.ast.value.id
+            if x in result_vars:
+                # which value the name holds here: the helper's answer (its binding dominates, nothing re-binds the name in
+                # between) or still the text (no binding of the answer reaches)
+                b_ids = result_vars[x]
+                after = flow.reachable(cfg, [b for i in b_ids for (b, l) in cfg.succ[i] if l != 'exc'], edge_filter=flow.no_exc)
+                if n.id in after:
+                    others = [i for s, _v in _assignments(dec.node, x) for i in cfg.nodes_for(s) if i not in b_ids]
+                    if not flow.dominated_by_nodes(cfg, n.id, b_ids) or any(
+                            o in after and n.id in flow.reachable(cfg, [o], edge_filter=flow.no_exc) for o in others):
+                        raise UnknownIdiom('decode(): %s holds the text on one path and the decoded result on another at %s' % (x, n.text()))
+                    handed_rets.append(n)
+                    continue
+            if x in memo:
+                continue       # an answer kept from an earlier call (what is kept, and under which key: _r4_memo)
             shortcut.append(n)
+    if hand and not handed_rets:
+        raise AnchorError('decode(): the result of %s is never returned' % tail.name)
+    for n, c in hand:
+        run.ok('decode() hands the text to the helper that holds the re-encoding, the split at b"%" and the token loop', dec.loc(c), c)
 
     def assume(e):
         if is_flag(e):
@@ -2317,26 +2539,17 @@ def r4_decoder_paths(run):
                 return False
         return None
 
-    goals = [sp.id] + [n.id for n in shortcut]
+    goals = goal_ids + [n.id for n in shortcut]
     path = flow.find_path(cfg, [cfg.entry], goals, avoid_nodes=[n.id for n in rep_nodes], edge_filter=_feasible(cfg, assume))
+    sp0 = cfg.node(goal_ids[0])
     run.check(path is None, "with unquote_plus set, every '+' is replaced by a space before the text is split at '%' or returned", dec,
-              cfg.node(path[-1]).ast if path else sp.ast, where='%s:%s' % (dec.file, (cfg.node(path[-1]) if path else sp).lineno),
+              cfg.node(path[-1]).ast if path else sp0.ast, where='%s:%s' % (dec.file, (cfg.node(path[-1]) if path else sp0).lineno),
               witness=flow.describe_path(cfg, path) if path else None, runtime_witness="decode('a+b') == 'a+b' or decode('%2B+') == '+ +'")
     for n in rep_nodes:
-        back = flow.find_path(cfg, [sp.id], [n.id])
+        back = flow.find_path(cfg, goal_ids, [n.id])
         run.check(back is None, "'+' is replaced before splitting (an escaped %2B never turns into a space)", dec, n.ast,
                   where='%s:%s' % (dec.file, n.lineno), runtime_witness="decode('%2B') == ' '")
 
-    # the text that is split / returned is the replaced one
-    if len(text_vars) > 1:
-        raise UnknownIdiom('decode(): several text variables %s' % sorted(text_vars))
-    tv = next(iter(text_vars)) if text_vars else None
-    if tv is None:
-        raise AnchorError("decode(): no replace('+', ' ') found")
-    binds = [b for b in _assignments(dec.node, tv) if not is_replace(b[1])]
-    for s, v in binds:
-        if not (isinstance(v, ast.Name) and v.id == src):
-            raise UnknownIdiom('decode(): %s is also bound by %s' % (tv, short(s, 60)))
     n_short = 0
     for n in shortcut:
         verdict = None
@@ -2365,21 +2578,37 @@ def r4_decoder_paths(run):
     if not n_short:
         raise AnchorError("decode(): no-'%' shortcut not found")
     # split source: text.encode() (UTF-8)
-    call = [c for c in sp.calls() if is_split(c)][0]
-    recv = _expand_in(dec, call.func.value, tv)
-    u = _utf8_encode_of(recv, tv)
+    call = [c for c in sp.calls() if is_split(c, tail)][0]
+    ttv = tv
+    if tail is not dec:
+        # inside the helper the text is its one parameter (never re-bound there)
+        ttv = tail.params()[0]
+        if _assignments(tail.node, ttv):
+            raise UnknownIdiom('%s: the parameter %s is re-bound' % (tail.qual, ttv))
+        _r4_memo(run, tail, tcfg, {}, [])
+        inline = tail.qual in paths
+    recv = _expand_in(tail, call.func.value, ttv)
+    u = _utf8_encode_of(recv, ttv)
     if u is None:
         raise UnknownIdiom('decode(): split receiver %s' % short(call.func.value, 60))
-    run.check(u and split_sep(call) == b'%', 'the text is re-encoded as UTF-8 (lossless) and split at b"%"', dec, recv,
-              where='%s:%s' % (dec.file, sp.lineno), runtime_witness="decode('\\u00e9%41') raises or mangles the non-ASCII character")
+    run.check(u and split_sep(call, tail) == b'%', 'the text is re-encoded as UTF-8 (lossless) and split at b"%"', tail, recv,
+              where='%s:%s' % (tail.file, sp.lineno), runtime_witness="decode('\\u00e9%41') raises or mangles the non-ASCII character")
     # tail call into the joiners with the token list
     if not (sp.kind == 'stmt' and isinstance(sp.ast, ast.Assign) and len(sp.ast.targets) == 1 and isinstance(sp.ast.targets[0], ast.Name)):
         raise UnknownIdiom('decode(): split result is not bound to a local')
     toks = sp.ast.targets[0].id
-    _r4_unbounded_tokens(run, dec, cfg, sp, call, toks)
+    _r4_unbounded_tokens(run, tail, tcfg, sp, call, toks)
     n_handed = 0
+    if tail is not dec:
+        # decode() itself: every return is a shortcut, the helper's answer or a kept answer (classified above)
+        for n in cfg.live_nodes():
+            if n.kind == 'stmt' and isinstance(n.ast, ast.Return) and n not in shortcut and n not in handed_rets \
+                    and not (isinstance(n.ast.value, ast.Name) and n.ast.value.id in memo):
+                raise UnknownIdiom('decode(): return %s' % short(n.ast.value, 80))
+    dec_outer, dec, cfg = dec, tail, tcfg
     for n in cfg.live_nodes():
-        if n.kind == 'stmt' and isinstance(n.ast, ast.Return) and n not in shortcut:
+        if n.kind == 'stmt' and isinstance(n.ast, ast.Return) and (dec is not dec_outer or (
+                n not in shortcut and not (isinstance(n.ast.value, ast.Name) and n.ast.value.id in memo))):
             v = n.ast.value
             if inline and isinstance(v, ast.Call) and isinstance(v.func, ast.Attribute) and v.func.attr == 'decode':
                 continue  # inline path, checked above
@@ -2837,6 +3066,298 @@ def _keeps_percent(fa, enc: Func, up: str, v) -> bool:
     return any(k[0] == 'enc' and '%' in fa.tables[k[3]][1] for k in parts)
 
 
+# -- the escape scan written as a find() loop --------------------------------
+
+def _find_call(e, up: str):
+    """e is `<up>.find('%'[, start])` -> (start expression or None,); else None."""
+    if isinstance(e, ast.Call) and isinstance(e.func, ast.Attribute) and e.func.attr in ('find', 'index') and isinstance(e.func.value, ast.Name) \
+            and e.func.value.id == up and 1 <= len(e.args) <= 2 and not e.keywords and isinstance(e.args[0], ast.Constant) and e.args[0].value == '%' \
+            and e.func.attr == 'find':
+        return (e.args[1] if len(e.args) == 2 else None,)
+    return None
+
+
+def _found_atom(e, pos: str) -> Optional[bool]:
+    """e is `pos != -1` / `pos >= 0` / `pos > -1` (-> True: holds iff a % was found) or `pos == -1` / `pos < 0` (-> False)."""
+    if not (isinstance(e, ast.Compare) and len(e.ops) == 1 and isinstance(e.left, ast.Name) and e.left.id == pos):
+        return None
+    c = _lin(e.comparators[0])
+    if c is None or c[0] is not None:
+        return None
+    op, k = type(e.ops[0]), c[1]
+    return {(ast.NotEq, -1): True, (ast.GtE, 0): True, (ast.Gt, -1): True, (ast.Eq, -1): False, (ast.Lt, 0): False, (ast.LtE, -1): False}.get((op, k))
+
+
+def _find_loops(enc: Func, up: str) -> List[Tuple[ast.While, str]]:
+    """`while <pos was found>:` loops whose position variable is only ever bound to <up>.find('%', ...)."""
+    out = []
+    for w in walk_self(enc.node):
+        if isinstance(w, ast.While) and isinstance(w.test, ast.Compare) and isinstance(w.test.left, ast.Name):
+            pos = w.test.left.id
+            if _found_atom(w.test, pos) is not True or pos in enc.params():
+                continue
+            binds = _assignments(enc.node, pos)
+            if binds and all(v is not None and _find_call(v, up) is not None for _s, v in binds):
+                out.append((w, pos))
+    return out
+
+
+def _r5_find_scan(run, fa, enc: Func, cfg, up: str, found, is_check, in_heuristic):
+    """R5 on the find-loop form of the already-escaped scan.  Clause: after each % the test establishes BOTH that exactly
+    two characters follow and that both are hex digits.  Decided by abstract evaluation of the loop's tests over the
+    cells of "what follows the %": nothing / one hex digit / one other character (the input ends there), other+hex,
+    hex+other, hex+hex.  A slice uri[pos+a:pos+b] is the matching window of the cell (shorter when the input ends), and
+    the tests on it are evaluated on that window: len(), truthiness, == '', .rstrip/.lstrip/.strip(<digits>) (only what is
+    no digit survives: '' for an empty or all-digit window), `in <digits>` ('' is in every string), all(c in <digits> ...)
+    (true for ''), indexing.  In every cell but hex+hex no path may lead back to the loop test or to the accepting
+    return.  A test on the window that is not read is UnknownIdiom, never a verdict.
+    W: encode_check_escaped('/sale/100%') and ('/a%20b/100%2') are returned unchanged."""
+    p = run.project
+    loop, pos = found
+    tests = [n for n in cfg.live_nodes() if n.kind == 'test' and n.ast is loop.test]
+    if not tests:
+        raise UnknownIdiom('%s: loop header' % enc.qual)
+    if not all(in_heuristic(t.id) for t in tests):
+        raise UnknownIdiom('%s: the find() scan is not under the check_is_escaped test' % enc.qual)
+    inside = {id(x) for x in ast.walk(loop)}
+    set_in_loop = {x.id for x in ast.walk(loop) if isinstance(x, ast.Name) and isinstance(x.ctx, ast.Store)}
+    pure_flags = set(getattr(cfg, 'flag_refined', None) or ())
+    for t in cfg.live_nodes():
+        if t.kind == 'test' and id(t.ast) not in inside:
+            flags = sorted(({x.id for x in ast.walk(t.ast) if isinstance(x, ast.Name)} & set_in_loop) - pure_flags)
+            if flags:
+                raise UnknownIdiom('%s: the outcome of the escape check is carried by the local %s (test %s)' % (enc.qual, flags[0], short(t.ast, 60)))
+
+    # every % is visited: the first search starts at the beginning, the next one at most 3 characters on (the two
+    # characters skipped were found to be hex digits, so neither is a %)
+    for s, v in _assignments(enc.node, pos):
+        start = _find_call(v, up)[0]
+        if id(s) not in inside:
+            st = _lin(start) if start is not None else (None, 0)
+            run.check(st == (None, 0), 'every % of the input is examined (the search starts at the beginning)', enc, v, where=enc.loc(s),
+                      runtime_witness="encode_check_escaped('%zz%20') is returned unchanged")
+        else:
+            st = _lin(start) if start is not None else None
+            if st is None or st[0] != pos:
+                raise UnknownIdiom('%s: next search position %s' % (enc.qual, short(v, 60)))
+            run.check(1 <= st[1] <= 3, 'every % of the input is examined (the next search starts at most behind the two characters just tested)',
+                      enc, v, where=enc.loc(s), runtime_witness="encode_check_escaped('%20a%zz') is returned unchanged")
+
+    accept, encoded = [], []
+    for n in cfg.live_nodes():
+        if n.kind == 'stmt' and isinstance(n.ast, ast.Return):
+            v = n.ast.value
+            if ((isinstance(v, ast.Name) and v.id == up) or _keeps_percent(fa, enc, up, v)) and _guard_verdict(cfg, n.id, is_check, True)[0] == 'proved':
+                accept.append(n)
+            else:
+                encoded.append(n)
+    if not accept:
+        raise AnchorError('%s: no already-escaped shortcut' % enc.qual)
+    done_edges = [e for t in tests for e in flow.edges_out(cfg, t.id, 'F')]
+    past_done = flow.reachable(cfg, [cfg.entry], avoid_edges=done_edges)
+    for n in accept:
+        run.check(n.id not in past_done,
+                  'the input is accepted as already escaped only after the loop examined every % without breaking', enc, n.ast,
+                  where='%s:%s' % (enc.file, n.lineno), runtime_witness="encode_check_escaped('%20%zz') is returned unchanged")
+
+    hexsets = []
+
+    class _Raises(Exception):
+        pass
+
+    def digits(e) -> bool:
+        hv = fa.ev.expr(e, dict(fa.env))
+        if not isinstance(hv, (str, frozenset, set, tuple, list)) or not all(isinstance(x, str) and len(x) == 1 for x in hv):
+            raise UnknownIdiom('%s: hex digit set %s' % (enc.qual, short(e, 40)))
+        hexsets.append((e, frozenset(hv)))
+        return True
+
+    def window(e, cell, depth=3):
+        """the classes ('H' hex digit / 'X' anything else) of the characters e denotes in this cell; None: no window"""
+        if isinstance(e, ast.Name) and e.id not in (up, pos) and depth > 0:
+            b = _assignments(loop, e.id)
+            if len(b) == 1 and b[0][1] is not None and len(_assignments(enc.node, e.id)) == 1:
+                return window(b[0][1], cell, depth - 1)
+            return None
+        if isinstance(e, ast.Subscript):
+            if isinstance(e.value, ast.Name) and e.value.id == up:
+                if isinstance(e.slice, ast.Slice):
+                    lo, hi = _lin(e.slice.lower), (_lin(e.slice.upper) if e.slice.upper is not None else None)
+                    if e.slice.step is not None or lo is None or hi is None or lo[0] != pos or hi[0] != pos or not (1 <= lo[1] <= hi[1] <= 3):
+                        raise UnknownIdiom('%s: slice %s is not a window of the two characters after the %%' % (enc.qual, short(e, 60)))
+                    return cell[lo[1] - 1:hi[1] - 1]
+                ix = _lin(e.slice)
+                if ix is None or ix[0] != pos or not (1 <= ix[1] <= 2):
+                    raise UnknownIdiom('%s: %s is not one of the two characters after the %%' % (enc.qual, short(e, 60)))
+                if ix[1] - 1 >= len(cell):
+                    raise _Raises()
+                return cell[ix[1] - 1:ix[1]]
+            base = window(e.value, cell, depth)
+            if base is None:
+                return None
+            if isinstance(e.slice, ast.Slice):
+                lo, hi = _lin(e.slice.lower), _lin(e.slice.upper)
+                if e.slice.step is not None or lo is None or hi is None or lo[0] is not None or hi[0] is not None:
+                    raise UnknownIdiom('%s: slice %s' % (enc.qual, short(e, 60)))
+                return base[(lo[1] if e.slice.lower is not None else None):(hi[1] if e.slice.upper is not None else None)]
+            ix = _lin(e.slice)
+            if ix is None or ix[0] is not None:
+                raise UnknownIdiom('%s: index %s' % (enc.qual, short(e, 60)))
+            if not (-len(base) <= ix[1] < len(base)):
+                raise _Raises()
+            return (base[ix[1]],)
+        if isinstance(e, ast.Call) and isinstance(e.func, ast.Attribute) and e.func.attr in ('rstrip', 'lstrip', 'strip') and len(e.args) == 1 and not e.keywords:
+            base = window(e.func.value, cell, depth)
+            if base is None:
+                return None
+            digits(e.args[0])
+            out = list(base)
+            while out and out[-1] == 'H' and e.func.attr in ('rstrip', 'strip'):
+                out.pop()
+            while out and out[0] == 'H' and e.func.attr in ('lstrip', 'strip'):
+                out.pop(0)
+            return tuple(out)
+        return None
+
+    def touches(e) -> bool:
+        names = {x.id for x in ast.walk(e) if isinstance(x, ast.Name)}
+        local_windows = {n for n in set_in_loop if n != pos}
+        return bool(names & ({up, pos} | local_windows))
+
+    def truth(e, cell) -> Optional[bool]:
+        if isinstance(e, ast.Constant):
+            return bool(e.value)
+        if isinstance(e, ast.UnaryOp) and isinstance(e.op, ast.Not):
+            v = truth(e.operand, cell)
+            return None if v is None else (not v)
+        if isinstance(e, ast.BoolOp):
+            stop = isinstance(e.op, ast.Or)
+            unknown = False
+            for v in e.values:          # short-circuit order: what follows a deciding operand is not evaluated
+                r = truth(v, cell)
+                if r is stop:
+                    return stop
+                if r is None:
+                    unknown = True
+                    break              # the operands behind an undecided one may or may not run
+            return None if unknown else (not stop)
+        w = window(e, cell)
+        if w is not None:
+            return len(w) > 0
+        if isinstance(e, ast.Compare) and len(e.ops) == 1:
+            l, op, r = e.left, e.ops[0], e.comparators[0]
+            if isinstance(l, ast.Call) and isinstance(l.func, ast.Name) and l.func.id == 'len' and len(l.args) == 1:
+                w = window(l.args[0], cell)
+                c = _lin(r)
+                if w is not None and c is not None and c[0] is None:
+                    n, k = len(w), c[1]
+                    return {ast.Eq: n == k, ast.NotEq: n != k, ast.Lt: n < k, ast.LtE: n <= k, ast.Gt: n > k, ast.GtE: n >= k}.get(type(op))
+            if isinstance(op, (ast.Eq, ast.NotEq)) and any(isinstance(x, ast.Constant) and x.value == '' for x in (l, r)):
+                w = window(r if isinstance(l, ast.Constant) else l, cell)
+                if w is not None:
+                    return (len(w) == 0) == isinstance(op, ast.Eq)
+            if isinstance(op, (ast.In, ast.NotIn)):
+                w = window(l, cell)
+                if w is not None:
+                    hv = fa.ev.expr(r, dict(fa.env))
+                    if isinstance(hv, str):
+                        digits(r)
+                        # substring test: '' is in every string; one character is in it iff it is a digit; two: not read
+                        member = True if not w else ((w[0] == 'H') if len(w) == 1 else (False if 'X' in w else None))
+                    elif isinstance(hv, (set, frozenset, tuple, list, dict)) and all(isinstance(x, str) for x in hv):
+                        if all(len(x) == 1 for x in hv):
+                            digits(r)
+                            member = (w[0] == 'H') if len(w) == 1 else False
+                        elif all(len(x) == 2 and set(x) <= HEXDIG_BOTH for x in hv):
+                            member = False if (len(w) != 2 or 'X' in w) else (True if frozenset(hv) >= frozenset(
+                                a + b for a in HEXDIG_BOTH for b in HEXDIG_BOTH) else None)
+                        else:
+                            raise UnknownIdiom('%s: right operand of %s' % (enc.qual, short(e, 60)))
+                    else:
+                        raise UnknownIdiom('%s: right operand of %s' % (enc.qual, short(e, 60)))
+                    return None if member is None else (member == isinstance(op, ast.In))
+        if isinstance(e, ast.Call) and isinstance(e.func, ast.Name) and e.func.id in ('all', 'any') and len(e.args) == 1 \
+                and isinstance(e.args[0], (ast.GeneratorExp, ast.ListComp)) and len(e.args[0].generators) == 1:
+            g = e.args[0].generators[0]
+            w = window(g.iter, cell)
+            el = e.args[0].elt
+            if w is not None and not g.ifs and isinstance(g.target, ast.Name) and isinstance(el, ast.Compare) and len(el.ops) == 1 \
+                    and isinstance(el.ops[0], (ast.In, ast.NotIn)) and isinstance(el.left, ast.Name) and el.left.id == g.target.id:
+                digits(el.comparators[0])
+                vals = [(c == 'H') == isinstance(el.ops[0], ast.In) for c in w]
+                return all(vals) if e.func.id == 'all' else any(vals)
+        if touches(e):
+            raise UnknownIdiom('%s: test %s on the characters after the %% is not read' % (enc.qual, short(e, 60)))
+        return None
+
+    raised = []
+
+    def feasible_in(cell):
+        def filt(a, b, l):
+            if l == 'exc':
+                return False
+            n = cfg.node(a)
+            if n.kind == 'test' and l in ('T', 'F') and id(n.ast) in inside and n.ast is not loop.test:
+                try:
+                    v = truth(n.ast, cell)
+                except _Raises:
+                    raised.append(n)    # IndexError: the encoder raises here, it neither continues nor accepts
+                    return False
+                if v is not None and v != (l == 'T'):
+                    return False
+            return True
+        return filt
+
+    cases = [('short', 'no character follows the %', [()]),
+             ('short', 'a single character follows the %', [('H',), ('X',)]),
+             ('c0', 'the first character after % is not a hex digit', [('X', 'H'), ('X', 'X')]),
+             ('c1', 'the second character after % is not a hex digit', [('H', 'X')])]
+    starts = [b for t in tests for (_a, b, _l) in flow.edges_out(cfg, t.id, 'T')]
+    goals = [t.id for t in tests] + [n.id for n in accept]
+    for kind, doc, cells in cases:
+        path = cell_hit = None
+        for cell in cells:
+            del raised[:]
+            path = flow.find_path(cfg, starts, goals, edge_filter=feasible_in(cell))
+            if path is None and raised:
+                # the test is reached in this cell (the search only asks about edges of nodes it got to) and indexes past the end
+                path = flow.find_path(cfg, starts, [raised[0].id], edge_filter=feasible_in(cell)) or [raised[0].id]
+                cell_hit = cell
+                run.fail('when %s the loop breaks (the input is not taken as already escaped)' % doc, enc, 'escape check: %s' % doc, where=enc.loc(loop),
+                         witness=['%s indexes past the end of the input here: IndexError' % short(raised[0].ast, 60)] + flow.describe_path(cfg, path),
+                         runtime_witness="encode_check_escaped('abc%') raises IndexError")
+                break
+            if path is not None:
+                cell_hit = cell
+                break
+        if path is not None and raised and cell_hit is not None and cfg.node(path[-1]) is raised[0]:
+            continue
+        wit = None
+        if path is not None:
+            wit = ['what follows the %% here: %s, then the input ends' % (' + '.join({'H': 'a hex digit', 'X': 'another character'}[c] for c in cell_hit)
+                                                                         or 'nothing') if len(cell_hit) < 2 else
+                   'what follows the %% here: %s' % ' + '.join({'H': 'a hex digit', 'X': 'another character'}[c] for c in cell_hit)] \
+                + flow.describe_path(cfg, path)
+        run.check(path is None, 'when %s the loop breaks (the input is not taken as already escaped)' % doc, enc,
+                  'escape check: %s' % doc, where=enc.loc(loop), witness=wit,
+                  runtime_witness={'short': "encode_check_escaped('abc%') / ('abc%2')", 'c0': "encode_check_escaped('%z0')",
+                                   'c1': "encode_check_escaped('%0z')"}[kind] + ' is returned unchanged')
+    if not hexsets:
+        raise UnknownIdiom('%s: the escape check does not test the characters after %% against a digit set' % enc.qual)
+    for node, hv in {id(n): (n, s) for n, s in hexsets}.values():
+        run.check(hv == HEXDIG_BOTH, 'escapes are recognised by hex digits of both cases, and nothing else', enc, node,
+                  where=enc.loc(node), witness=['%r' % _show(hv)], runtime_witness="encode_check_escaped('%2f') or ('%2g')")
+
+    brks = [n for n in cfg.live_nodes() if n.kind == 'stmt' and isinstance(n.ast, ast.Break) and id(n.ast) in inside]
+    if not brks:
+        raise AnchorError('%s: no break in the escape check' % enc.qual)
+    for b in brks:
+        bad = flow.find_path(cfg, [b.id], [n.id for n in accept], edge_filter=flow.no_exc)
+        run.check(bad is None, 'a malformed escape makes the encoder fall through to full encoding', enc, b.ast,
+                  where='%s:%s' % (enc.file, b.lineno), witness=flow.describe_path(cfg, bad) if bad else None,
+                  runtime_witness="encode_check_escaped('100% x') keeps the bare %")
+
+
 def r5_check_escaped(run):
     p = run.project
     fs = _factories(run)
@@ -2896,6 +3417,11 @@ def r5_check_escaped(run):
     lookalike_fired = _slice_class_tests(run, fa, enc, cfg, in_heuristic)
     if lookalike_fired and len(loops) != 1:
         return
+    if not loops and scan is None:
+        # the other way to visit every %: `pos = uri.find('%')` / `while pos != -1:` ... `pos = uri.find('%', pos + k)`
+        fl = _find_loops(enc, up)
+        if len(fl) == 1:
+            return _r5_find_scan(run, fa, enc, cfg, up, fl[0], is_check, in_heuristic)
     loop = single(loops, "loop over the '%'-separated tokens", enc.qual)
     tok = loop.target.id
     # the shapes understood below carry the outcome of the scan in the control flow (break / for-else);
